@@ -526,3 +526,89 @@ func runSplitSummarizeTailKeys(c *Ctx, rule string) {
 		c.Fail(rule, "liftIntoParPaths summarize tail keys", setIn.Pos(), "the combining summarize keeps the original key expressions: it evaluates them on the partial rows produced by the legs (where the key already holds the computed value), so groups with computed keys are merged wrongly and results depend on the degree of parallelism")
 	}
 }
+
+// ---- C07-K2 / C08-K2: an operator that rewrites a parent or a child of the sort key ends the order.
+func runSortKeyOverlap(c *Ctx, rule string) {
+	p := c.P
+	c.Rule(rule, "analyzeSortKeys keeps the input order through drop, put and rename only after testing that the rewritten field neither contains nor is contained in the sort key (a prefix test in both directions; equality alone misses `drop a` for key a.b): otherwise the operator is lifted in front of the merge of a parallel scan and the merge runs on a key that no longer exists")
+	fn := p.Func("(*compiler/optimizer.Optimizer).analyzeSortKeys")
+	if fn == nil {
+		c.Undecided(rule, "analyzeSortKeys", "anchor does not resolve")
+		return
+	}
+	decl := p.Decl(fn)
+	info := p.pkgOfFunc(fn).TypesInfo
+	// is call a two-way prefix test?
+	twoWay := func(call *ast.CallExpr) bool {
+		var obj types.Object
+		switch f := call.Fun.(type) {
+		case *ast.Ident:
+			obj = info.Uses[f]
+		case *ast.SelectorExpr:
+			obj = info.Uses[f.Sel]
+		}
+		tf, ok := obj.(*types.Func)
+		if !ok {
+			return false
+		}
+		sf := p.SSA.FuncValue(tf)
+		if sf == nil || sf.Blocks == nil {
+			return false
+		}
+		// both parameters appear as receiver of HasPrefix
+		recvs := map[ssa.Value]bool{}
+		for _, ci := range allCalls(sf) {
+			nm := calleeName(ci.Common())
+			if nm == "(pkg/field.Path).HasPrefix" || nm == "(pkg/field.Path).HasStrictPrefix" {
+				recvs[stripConv(ci.Common().Args[0])] = true
+			}
+		}
+		n := 0
+		for _, prm := range sf.Params {
+			if recvs[prm] {
+				n++
+			}
+		}
+		return n >= 2
+	}
+	want := map[string]bool{"compiler/ast/dag.Drop": true, "compiler/ast/dag.Put": true, "compiler/ast/dag.Rename": true}
+	seen := 0
+	ast.Inspect(decl.Body, func(nd ast.Node) bool {
+		cc, ok := nd.(*ast.CaseClause)
+		if !ok || len(cc.List) != 1 {
+			return true
+		}
+		t := info.TypeOf(cc.List[0])
+		if t == nil || !want[namedOf(t)] {
+			return true
+		}
+		seen++
+		has := false
+		hasPrefixDirs := 0
+		for _, st := range cc.Body {
+			ast.Inspect(st, func(x ast.Node) bool {
+				call, ok := x.(*ast.CallExpr)
+				if !ok {
+					return true
+				}
+				if twoWay(call) {
+					has = true
+				}
+				if sel, ok := call.Fun.(*ast.SelectorExpr); ok && (sel.Sel.Name == "HasPrefix" || sel.Sel.Name == "HasStrictPrefix") {
+					hasPrefixDirs++
+				}
+				return true
+			})
+		}
+		construct := "analyzeSortKeys case " + namedOf(t)
+		if has || hasPrefixDirs >= 2 {
+			c.OK(rule, construct, cc.Pos(), "order kept only after a two-way prefix test against the sort key")
+		} else {
+			c.Fail(rule, construct, cc.Pos(), "the rewritten field is only compared with the sort key for equality: rewriting a parent of the key (`drop a`, `put a:=…`, `rename x:=a` with key a.b) is taken to preserve the order, so the operator is lifted into the legs of a parallel scan and the merge that follows compares a key that is gone — the output order changes with the degree of parallelism")
+		}
+		return true
+	})
+	if seen != 3 {
+		c.Undecided(rule, "analyzeSortKeys", "expected the cases Drop, Put and Rename, found "+sprint(seen))
+	}
+}
